@@ -313,6 +313,8 @@ func init() {
 			c01("H_snip", map[string]int{"n": 1, "lo": 34, "hi": 37}, "quickonly", "parsed", "accepted", "rejected", "ran"),
 			c01("H_snip", map[string]int{"n": 0, "pool": 1, "lo": 34, "hi": 46}, "quickonly", "parsed", "accepted", "rejected", "ran"),
 			c01("H_snip", map[string]int{"n": 0, "pool": 1}, "thorough", "parsed", "accepted", "rejected", "ran"),
+			c01("H_trunc", n(0), "quick", "parsed", "accepted", "rejected", "ran"),
+			c01("H_trunc", map[string]int{"n": 1, "lo": 34, "hi": 46}, "thorough", "parsed", "accepted", "rejected", "ran"),
 			c01("H_snip", n(1), "thorough", "parsed", "accepted", "rejected", "ran"),
 			c01("H_lex_template", n(2), "thorough", "lexed"),
 			c01("H_parse", n(2), "thorough", "parsed"),
